@@ -183,6 +183,10 @@ elif path == "exec":
 elif path == "via":
     g.makegateway("popen//python=%s//id=m" % py)
     gw = g.makegateway("popen//via=m//python=%s//execmodel=%s" % (py, model))
+elif path == "via-nopy":
+    # no python= on the proxied gateway: the forwarder starts its own interpreter, which has no execnet
+    g.makegateway("popen//python=%s//id=m" % py)
+    gw = g.makegateway("popen//via=m//execmodel=%s" % model)
 elif path == "socket":
     g.makegateway("popen//python=%s//id=m//execmodel=%s" % (py, model))
     gw = g.makegateway("socket//installvia=m")
@@ -269,7 +273,7 @@ def cell(c):
     env = dict(os.environ)
     env["PYTHONPATH"] = "/repo/src"
     env.update(ENVS[c[3] if len(c) > 3 else "default"])
-    if len(c) > 3 and path != "import":
+    if (len(c) > 3 and path != "import") or path == "via-nopy":
         # these workers run without -E (so that the encoding settings reach them): keep them bare
         env.pop("PYTHONPATH", None)
     try:
@@ -295,6 +299,9 @@ def run(tier: str, only=None) -> int:
                 if tier == "quick" and "3.11" in py and m == "main_thread_only" and path != "exec":
                     continue
                 cells.append((path, py, m))
+    if os.path.exists("/usr/bin/python3.11"):
+        for m in ("thread", "main_thread_only"):
+            cells.append(("via-nopy", "/usr/bin/python3.11 -S -E -s", m))
     for envname in ("io-ascii", "io-latin1", "c-locale"):
         for m in ("thread",) if tier == "quick" else ("thread", "main_thread_only"):
             cells.append(("import", "-", m, envname))
